@@ -192,7 +192,15 @@ class _RunnerIterator(iter_utils.MultiplexIterator[_ValueT]):
       batch_output = super().__next__()
       self.batch_index += 1
       if self._with_agg:
-        self.agg_state = self._runner.update_state(self.agg_state, batch_output)
+        try:
+          self.agg_state = self._runner.update_state(
+              self.agg_state, batch_output
+          )
+        except Exception:
+          # The iteration is over: releases the worker threads, if any.
+          self.maybe_stop()
+          self._iterator = iter(())
+          raise
       logging.debug(
           'chainable: %s', f'"{self.name}" batch cnt {self.batch_index}.'
       )
